@@ -10,8 +10,8 @@ Record planted_case := mkPL {
   pl_subst : bool;        (* the manual lists the field among the substituted places *)
   pl_defined : bool;      (* p is defined (by -D, by a default, or both) *)
   pl_kind : N;            (* 0 accepted, 1 rejected, 2 panicked, 3 timed out *)
-  pl_cls : N;             (* error class when rejected (4 = undefined parameter) *)
-  pl_names_p : bool;      (* the diagnostic names ~p~ as undefined *)
+  pl_cls : N;             (* message class when rejected (a note; not used by the oracle) *)
+  pl_names_p : bool;      (* the diagnostic mentions ~p~ *)
   pl_pos_ok : bool;       (* the diagnostic is positioned at the planted line *)
   pl_same : bool;         (* same outcome (printed configuration / message) as the reference *)
   pl_ref_kind : N
@@ -22,13 +22,13 @@ Record planted_case := mkPL {
     defined at all.  The plain meaning:
     - substituted, defined: accepted, and identical to the reference;
     - substituted, undefined: rejected at that line, naming ~p~;
-    - untouched: identical to the reference whatever p is, never "undefined". *)
+    - untouched: identical to the reference whatever p is. *)
 Definition planted_oracle_bad (c : planted_case) : bool :=
   if (2 <=? pl_kind c)%N then true
   else if pl_subst c then
     if pl_defined c then negb (pl_same c && (pl_kind c =? 0)%N)
-    else negb ((pl_kind c =? 1)%N && (pl_cls c =? 4)%N && pl_names_p c && pl_pos_ok c)
-  else negb (pl_same c) || ((pl_cls c =? 4)%N && pl_names_p c).
+    else negb ((pl_kind c =? 1)%N && pl_names_p c && pl_pos_ok c)    (* whatever the wording: rejected there, naming ~p~ *)
+  else negb (pl_same c).
 
 (** * parseDefines / `parameter` / preprocReplace directly *)
 Record pp_case := mkPP {
